@@ -149,13 +149,18 @@ SLvfo(t) ==
   /\ LoadVersionForOverwriting(t)
   /\ IF t \in Retained
      THEN /\ ovl' = NoOvl
-          /\ IF fast THEN LET p1 == Enable(saved, t, latest, Phys)
-                              p2 == IF FixLvfoLabel /\ t < latest THEN [p1 EXCEPT !.label = 0] ELSE p1 IN
-                          SetPhys(Enable(saved, t, t, p2))
+          /\ IF \E p \in pins : p > t
+             THEN \* refused after the load: only the LoadVersion(t) part happened
+                  (IF fast THEN SetPhys(Enable(saved, t, latest, Phys)) ELSE UNCHANGED <<fidx, label, built, stale>>)
+             ELSE IF fast THEN LET p1 == Enable(saved, t, latest, Phys)
+                                   p2 == IF FixLvfoLabel /\ t < latest THEN [p1 EXCEPT !.label = 0] ELSE p1 IN
+                               SetPhys(Enable(saved, t, t, p2))
              ELSE /\ fidx' = fidx /\ built' = built /\ stale' = stale
                   /\ label' = IF FixLvfoLabel /\ label # -1 /\ t < latest THEN 0 ELSE label
      ELSE UNCHANGED <<ovl, fidx, label, built, stale>>
   /\ PLog
+SExpOpen(t) == ExportOpen(t) /\ UNCHANGED <<ovl, fidx, label, built, stale>> /\ PLog
+SExpClose(t) == ExportClose(t) /\ UNCHANGED <<ovl, fidx, label, built, stale>> /\ PLog
 SDelTo(n) == DeleteVersionsTo(n) /\ UNCHANGED <<ovl, fidx, label, built, stale>> /\ PLog
 SImport(t, f) ==
   /\ ImportSwitch(t, f) /\ ovl' = NoOvl
@@ -211,9 +216,11 @@ SNextBounded ==
   \/ \E t \in 1..(latest + 1) : SLvfo(t)
   \/ \E n \in 0..(latest + 1) : DelOk(n) /\ SDelTo(n)
   \/ \E t \in Retained, f \in BOOLEAN : SImport(t, f)
+  \/ \E t \in Retained : SExpOpen(t)
+  \/ \E t \in pins : SExpClose(t)
 
 SFinish == /\ Len(hist) >= D /\ ~done /\ done' = TRUE
-           /\ UNCHANGED <<work, saved, first, latest, version, fast, iv, nops, wm, vm, wlog, hist, pvars>>
+           /\ UNCHANGED <<work, saved, first, latest, version, fast, iv, nops, wm, vm, wlog, pins, hist, pvars>>
            /\ PrintT(<<"TRACE", ToJson([h |-> hist, p |-> phist])>>)
 
 SNextSim ==
@@ -234,6 +241,8 @@ SNextSim ==
       [] c = "delto"    -> \E n \in 0..(latest + 1) : DelOk(n) /\ SDelTo(n)
       [] c = "import"   -> IF latest = 0 THEN SSave ELSE \E t \in Retained, f \in BOOLEAN : SImport(t, f)
       [] c = "savecs"   -> \E cs \in CSCands : SSaveCS(cs)
+      [] c = "expopen"  -> IF Retained \ pins = {} THEN SRollback ELSE \E t \in Retained \ pins : SExpOpen(t)
+      [] c = "expclose" -> IF pins = {} THEN SRollback ELSE \E t \in pins : SExpClose(t)
       [] OTHER          -> SSave
 
 SSpecBounded == SInit /\ [][SNextBounded]_svars
